@@ -24,6 +24,11 @@ func genBytes(rt *rapid.T, label string, maxTok int) []byte {
 
 func genOver(rt *rapid.T, label string, maxTok int, alpha [][]byte) []byte {
 	n := rapid.IntRange(0, maxTok).Draw(rt, label+"_n")
+	// now and then a long payload: crosses the buffers' initial 64-byte
+	// capacity and the growth steps after it
+	if rapid.IntRange(0, 29).Draw(rt, label+"_long") == 0 {
+		n = rapid.IntRange(25, 140).Draw(rt, label+"_nlong")
+	}
 	out := []byte{}
 	for i := 0; i < n; i++ {
 		k := rapid.IntRange(0, len(alpha)-1).Draw(rt, label+"_t")
@@ -193,6 +198,9 @@ func genSimpleFormat(rt *rapid.T, label string, nargs int, bytesAlpha bool) []by
 // payload is replaced by a well-formed fragment.
 func genHistory(rt *rapid.T, cfg *opConfig, maxLen int) []*Op {
 	n := rapid.IntRange(0, maxLen).Draw(rt, "nops")
+	if rapid.IntRange(0, 39).Draw(rt, "longhist") == 0 {
+		n = rapid.IntRange(maxLen, 3*maxLen+10).Draw(rt, "nopslong")
+	}
 	ops := make([]*Op, 0, n)
 	mode := 0 // tracked only for MB raw writes
 	for i := 0; i < n; i++ {
